@@ -3760,9 +3760,17 @@ impl<Front: SocketHandler> ConnectionH2<Front> {
                     MuxResult::CloseSession
                 }
             }
-            (H2State::Error, _)
-            | (H2State::ClientSettings, Position::Server)
-            | (H2State::ServerSettings, Position::Client(..)) => {
+            (H2State::ServerSettings, Position::Client(..)) => {
+                // Our preface and SETTINGS are out, the server's have not come
+                // in yet: there is nothing to write. The frontend arms WRITABLE
+                // here whenever more of a linked request arrives (a body in a
+                // second segment is enough); that is no reason to drop the
+                // connection in the middle of its handshake. The server's
+                // SETTINGS re-arm WRITABLE when they arrive.
+                self.readiness.interest.remove(Ready::WRITABLE);
+                MuxResult::Continue
+            }
+            (H2State::Error, _) | (H2State::ClientSettings, Position::Server) => {
                 error!(
                     "{} Unexpected combination: (Writable, {:?}, {:?})",
                     log_context!(self),
